@@ -9,6 +9,7 @@ import (
 	"go/constant"
 	"go/token"
 	"go/types"
+	"regexp/syntax"
 	"sort"
 	"strings"
 
@@ -2002,4 +2003,100 @@ func isRootCtxValue(v ssa.Value, fn *ssa.Function, depth int) bool {
 		}
 	}
 	return false
+}
+
+// ---------------------------------------------------------------- component keys are confined to harmless characters (C02, C20)
+
+// checkComponentKeyAlphabet evaluates the regular expression that validates the keys of the Components Object
+// (openapi/parser.componentsKeyRegex, a constant pattern) and requires every character it admits to be harmless in
+// the places that use such a key raw: the templates print it into `//` line comments (a line break ends the comment and
+// the rest of the name becomes code: the output no longer formats, after the target directory has been cleaned), and
+// the reference shortcut treats it as one pointer token (no '/', no '~', no '%', no '#'). The pattern must be anchored
+// at both ends and consist of one repeated character class, otherwise the rule is undecided.
+func checkComponentKeyAlphabet(c *core.Ctx, r *core.Rule, prog *core.Prog) {
+	sp := prog.ByPath[pkgParser]
+	if sp == nil {
+		r.Undecided("load:openapi/parser", "-", "package not loaded")
+		return
+	}
+	g, ok := sp.Members["componentsKeyRegex"].(*ssa.Global)
+	if !ok {
+		r.Undecided("anchor:componentsKeyRegex", "-", "openapi/parser.componentsKeyRegex not found")
+		return
+	}
+	pat, found := "", false
+	var pos token.Pos
+	if init := sp.Func("init"); init != nil {
+		for _, b := range init.Blocks {
+			for _, in := range b.Instrs {
+				st, ok := in.(*ssa.Store)
+				if !ok || st.Addr != ssa.Value(g) {
+					continue
+				}
+				if call, ok := st.Val.(*ssa.Call); ok && (core.IsCallTo(call.Common(), "regexp", "MustCompile") || core.IsCallTo(call.Common(), "regexp", "Compile")) {
+					if k, ok := call.Common().Args[0].(*ssa.Const); ok && k.Value != nil && k.Value.Kind() == constant.String {
+						pat, found, pos = constant.StringVal(k.Value), true, call.Pos()
+					}
+				}
+			}
+		}
+	}
+	if !found {
+		r.Undecided("component-key-alphabet:pattern", "-", "componentsKeyRegex is not initialised from a constant pattern")
+		return
+	}
+	re, err := syntax.Parse(pat, syntax.Perl)
+	if err != nil {
+		r.Undecided("component-key-alphabet:parse", c.Pos(pos), err.Error())
+		return
+	}
+	re = re.Simplify()
+	// ^ class+ $   (Simplify keeps OpPlus; `class*` would admit the empty key, which is harmless here)
+	var class *syntax.Regexp
+	if re.Op == syntax.OpConcat && len(re.Sub) == 3 && (re.Sub[0].Op == syntax.OpBeginText || re.Sub[0].Op == syntax.OpBeginLine && re.Flags&syntax.OneLine != 0) &&
+		(re.Sub[2].Op == syntax.OpEndText) && (re.Sub[1].Op == syntax.OpPlus || re.Sub[1].Op == syntax.OpStar) && len(re.Sub[1].Sub) == 1 {
+		class = re.Sub[1].Sub[0]
+	}
+	if class == nil || (class.Op != syntax.OpCharClass && class.Op != syntax.OpLiteral) {
+		r.Undecided("component-key-alphabet:shape", c.Pos(pos), fmt.Sprintf("the pattern %q is not `^[class]+$`: its alphabet is not read off", pat))
+		return
+	}
+	var ranges [][2]rune
+	if class.Op == syntax.OpLiteral {
+		for _, x := range class.Rune {
+			ranges = append(ranges, [2]rune{x, x})
+		}
+	} else {
+		for i := 0; i+1 < len(class.Rune); i += 2 {
+			ranges = append(ranges, [2]rune{class.Rune[i], class.Rune[i+1]})
+		}
+	}
+	var bad []string
+	in := func(x rune) bool {
+		for _, rg := range ranges {
+			if rg[0] <= x && x <= rg[1] {
+				return true
+			}
+		}
+		return false
+	}
+	for _, rg := range ranges {
+		if rg[0] < 0x20 {
+			hi := rg[1]
+			if hi > 0x1f {
+				hi = 0x1f
+			}
+			bad = append(bad, fmt.Sprintf("control characters U+%04X–U+%04X", rg[0], hi))
+		}
+	}
+	for _, x := range []rune{0x7f, 0x85, 0x2028, 0x2029, '/', '~', '%', '#', '"', '\\', '`', '*'} {
+		if in(x) {
+			bad = append(bad, fmt.Sprintf("%q", x))
+		}
+	}
+	if len(bad) == 0 {
+		r.Pass(fmt.Sprintf("componentsKeyRegex %q admits only single-line, pointer-neutral characters", pat))
+		return
+	}
+	r.Fail("component-key-alphabet", c.Pos(pos), fmt.Sprintf("componentsKeyRegex %q admits %s: a component key is printed raw into `//` comments of the generated code and used as one JSON-pointer token; such a key passes spec validation, and generation then fails while formatting — after the target directory has been cleaned and partly rewritten", pat, strings.Join(bad, ", ")))
 }
